@@ -232,7 +232,7 @@ pub fn world_cfg(id: &str, mode: Mode) -> Cfg {
         audit_tables: matches!(id, "C08" | "C12" | "C09" | "C13"),
         audit_leaks: matches!(id, "C04" | "C10" | "C12"),
         cost_checks: id == "C14",
-        exclude_known: mode == Mode::Elide,
+        exclude_known: mode == Mode::Elide && std::env::var_os("CX_NO_KF").is_none(),
         digest: id == "C09",
         strict_loopback: false,
     }
